@@ -65,13 +65,13 @@ ys_ = z3.Const("ys", BLS)
 joinr = specfn("joinr", [BL, TInt, TInt], TBytes, py=lambda xs, i, j: b"".join(xs[max(i, 0):max(j, 0)]),
                doc="b''.join(xs[i:j]) for 0 <= i <= j <= len(xs)")
 joinr.define = lambda xs, i, j: z3.If(j <= i, EMPTY, z3.Concat(joinr(xs, i, j - 1), xs[j - 1]))
-join = specfn("join", [BL], TBytes, py=lambda xs: b"".join(xs), doc="b''.join(xs)")
+join = specfn("join", [BL], TBytes, py=lambda xs: b"".join(xs), doc="b''.join(xs)", macro=True)
 join.define = lambda xs: joinr(xs, 0, z3.Length(xs))
 all_len_upto = specfn("all_len_upto", [BL, TInt, TInt], TBool, py=lambda xs, n, k: all(len(x) == n for x in xs[:max(k, 0)]),
                       doc="the first k elements have exactly n bytes")
 all_len_upto.define = lambda xs, n, k: z3.If(k <= 0, True, z3.And(z3.Length(xs[k - 1]) == n, all_len_upto(xs, n, k - 1)))
 all_len = specfn("all_len", [BL, TInt], TBool, py=lambda xs, n: all(len(x) == n for x in xs),
-                 doc="every element has exactly n bytes")
+                 doc="every element has exactly n bytes", macro=True)
 all_len.define = lambda xs, n: all_len_upto(xs, n, z3.Length(xs))
 
 IL = TList(TInt)
@@ -79,7 +79,7 @@ ILS = sort(IL)
 is_ = z3.Const("is", ILS)
 psum_upto = specfn("psum_upto", [IL, TInt], TInt, py=lambda xs, k: sum(xs[:max(k, 0)]), doc="sum of the first k elements")
 psum_upto.define = lambda xs, k: z3.If(k <= 0, 0, psum_upto(xs, k - 1) + xs[k - 1])
-isum = specfn("isum", [IL], TInt, py=lambda xs: sum(xs), doc="sum of an int list")
+isum = specfn("isum", [IL], TInt, py=lambda xs: sum(xs), doc="sum of an int list", macro=True)
 isum.define = lambda xs: psum_upto(xs, z3.Length(xs))
 
 sumlen = specfn("sumlen", [BL], TInt, py=lambda xs: sum(len(x) for x in xs))
@@ -154,6 +154,8 @@ lemma("mul_mono", [a_, x_, c_], Imp(And(a_ <= x_, c_ >= 0), a_ * c_ <= x_ * c_),
 lemma("mul_mono_strict", [a_, x_, c_], Imp(And(a_ < x_, c_ > 0), a_ * c_ < x_ * c_), patterns=None)
 lemma("div_mod_unique", [t_, p_, q_, r_], Imp(And(p_ > 0, t_ == q_ * p_ + r_, 0 <= r_, r_ < p_),
                                               And(t_ / p_ == q_, t_ % p_ == r_)), patterns=None)
+lemma("div_bounds", [a_, c_], Imp(c_ > 0, And((a_ / c_) * c_ <= a_, a_ < (a_ / c_) * c_ + c_)), patterns=None)
+lemma("div_lower", [a_, q_, c_], Imp(And(c_ > 0, a_ >= q_ * c_), a_ / c_ >= q_), patterns=None)
 # pow2
 lemma("pow2_pos", [n_], pow2(n_) >= 1, patterns=[pow2(n_)], induct=("int", n_), auto=True)
 lemma("pow2_step", [n_], Imp(n_ >= 0, pow2(n_ + 1) == 2 * pow2(n_)), patterns=[pow2(n_ + 1)])
